@@ -605,6 +605,14 @@ class StateMachine:
                 if self.__should_engage:
                     self.next_state(self.__first)
                     state = self.__state
+
+                    # the machine starts over at the instant the last state
+                    # expired: restart its clock there (so that every cycle
+                    # lasts the sum of the durations) and stay engaged
+                    self.__start += new_state_start
+                    self.__engaged = True
+                    tm = now - self.__start
+                    new_state_start = 0
                 else:
                     state = None
             else:
